@@ -12,6 +12,7 @@ Generic theorems (any classification `cls`, any programs, any schedule of operat
 Skeleton theorems (the four operations as the inventory describes them): see the second half of the file.
 -/
 import PrimaiteModel.Model.Isolation
+import PrimaiteModel.Gen.SharedState
 namespace Primaite.Isolation
 
 /-! ### relations -/
@@ -424,5 +425,259 @@ theorem C04_history_irrelevant (cls : Nat → GClass) (a : Nat) (prog : List Cmd
   have h1 := hind.1
   simp only [traj] at h1
   rw [h1, hfresh.1]
+
+/-! ## The skeleton of the real operations, and the tie to the regenerated inventory -/
+
+/-- Full statement for the skeleton (the four operations as the inventory says they access the globals): every
+schedule made of construct / reset / step operations leaves every instance's trajectory equal to its solo trajectory. -/
+def C04_FullSkeletonIsolated : Prop :=
+  ∀ (a : Nat) (evs : List Event) (p : Proc),
+    (∀ ev ∈ evs, ev.prog = constructProg ∨ ev.prog = resetProg ∨ ev.prog = stepProg ∨ ev.prog = stepProgClean) →
+    traj a (run evs p).2 = traj a (run (onlyOf a evs) p).2
+
+/-- the classification under which construct / reset pass: NMNE class attributes re-written before read, RNG re-seeded -/
+theorem constructProg_ok : progOK refClass constructProg = true := by decide
+theorem resetProg_ok : progOK refClass resetProg = true := by decide
+theorem resetProg_resetOK : resetOK refClass resetProg = true := by decide
+theorem resetProg_rebuilds : finalL false resetProg = true := by decide
+theorem stepProgClean_ok : progOK refClass stepProgClean = true := by decide
+/-- `step` as the code is does NOT respect the discipline (F-10: nmne_config / capture_nmne, F-11: global RNG) -/
+theorem stepProg_not_ok : progOK refClass stepProg = false := by decide
+theorem stepProg_leaks : unprotectedReads [] stepProg = [gNmne, gRng, gRng, gCapture] := by decide
+
+/-- Partial: excluding exactly the operations whose program is the leaking `step` (decidable hypothesis), the skeleton
+is isolated — construct and reset (with a seed) of other instances never disturb an instance. -/
+theorem C04_skeleton_isolated_partial (a : Nat) (evs : List Event) (p : Proc)
+    (h : ∀ ev ∈ evs, ev.prog = constructProg ∨ ev.prog = resetProg ∨ ev.prog = stepProg ∨ ev.prog = stepProgClean)
+    (hx : ∀ ev ∈ evs, ev.prog ≠ stepProg) :
+    traj a (run evs p).2 = traj a (run (onlyOf a evs) p).2 := by
+  have hok : ∀ ev ∈ evs, progOK refClass ev.prog = true := by
+    intro ev he
+    rcases h ev he with e | e | e | e
+    · rw [e]; exact constructProg_ok
+    · rw [e]; exact resetProg_ok
+    · exact absurd e (hx ev he)
+    · rw [e]; exact stepProgClean_ok
+  exact (C04_instances_independent refClass a evs p p hok rfl (fun _ _ => rfl)).1
+
+def proc0 : Proc := { inst := fun i => initInst 7 (if i = 0 then 1 else 0) 0, glob := fun _ => 0 }
+
+/-- non-vacuity of the partial theorem: a schedule with two instances, resets and clean steps -/
+example : traj 0 (run [⟨0, constructProg, 5⟩, ⟨1, constructProg, 9⟩, ⟨0, stepProgClean, 2⟩, ⟨1, resetProg, 4⟩, ⟨0, stepProgClean, 3⟩] proc0).2
+    = [[13], [14, 1], [17, 2]] := by decide
+
+/-- F-10 witness: instance 0 captures NMNE (config 1), instance 1 is built from a scenario that does not (config 0);
+after instance 1's construction, instance 0's step reads instance 1's class attributes. -/
+def witnessF10 : List Event := [⟨0, constructProg, 5⟩, ⟨1, constructProg, 5⟩, ⟨0, stepProg, 2⟩]
+/-- F-11 witness: identical scenarios; instance 1's step advances the global RNG between two steps of instance 0. -/
+def witnessF11 : List Event := [⟨0, resetProg, 5⟩, ⟨0, stepProg, 2⟩, ⟨1, stepProg, 2⟩, ⟨0, stepProg, 2⟩]
+def proc1 : Proc := { inst := fun _ => initInst 7 1 0, glob := fun _ => 0 }
+
+theorem C04_skeleton_counterexample : ¬ C04_FullSkeletonIsolated := by
+  intro h
+  have := h 0 witnessF10 proc0 (by decide)
+  revert this
+  decide
+
+theorem C04_skeleton_counterexample_rng : ¬ C04_FullSkeletonIsolated := by
+  intro h
+  have := h 0 witnessF11 proc1 (by decide)
+  revert this
+  decide
+
+/-- history irrelevance for the skeleton's reset: any two pasts with the same environment-level attributes -/
+theorem C04_skeleton_reset_fresh (a : Nat) (seed : Val) (h₁ h₂ later : List Event) (p₁ p₂ : Proc)
+    (hok₁ : ∀ e ∈ h₁, progOK refClass e.prog = true) (hok₂ : ∀ e ∈ h₂, progOK refClass e.prog = true)
+    (hlater : ∀ e ∈ later, progOK refClass e.prog = true)
+    (hG : AgreeIO refClass p₁.glob p₂.glob)
+    (henv : ((run h₁ p₁).1.inst a).env = ((run h₂ p₂).1.inst a).env) :
+    traj a (run (⟨a, resetProg, seed⟩ :: later) (run h₁ p₁).1).2
+      = traj a (run (⟨a, resetProg, seed⟩ :: onlyOf a later) (run h₂ p₂).1).2 :=
+  C04_history_irrelevant refClass a resetProg seed resetProg_resetOK resetProg_rebuilds h₁ h₂ later p₁ p₂ hok₁ hok₂ hlater hG henv
+
+/-! ### the committed classification and the regenerated inventory -/
+
+open Primaite.Gen.SharedState
+
+/-- role of a function that touches a runtime-written global: in which operations of an environment it can run, and
+whether what it reads only steers logging / file output / interactive display -/
+structure FnRole where
+  fn : String
+  phases : List Phase
+  sink : Bool
+
+def allPhases : List Phase := [.construct, .reset, .step]
+
+/-- COMMITTED table. A function that is not listed here and touches a runtime-written global breaks `C04_gen_functions_known`. -/
+/- notes:
+   getLogger: readers of the NMNE class attributes
+   AirSpaceFrequency.__init__: import time (two module constants) and the unused `register_frequency` API
+   WirelessRouter.from_config: readers of SIM_OUTPUT / PRIMAITE_CONFIG: logging, file paths
+   network_simulator_demo_example: demo helper, not an environment operation
+   _SimOutput.write_sys_log_to_terminal: users of the process-global random generators
+-/
+def committedFns : List FnRole := [
+  ⟨"game.agent.agent_log:AgentLog._get_log_path", allPhases, true⟩,
+  ⟨"game.agent.agent_log:AgentLog._write_to_terminal", allPhases, true⟩,
+  ⟨"game.agent.agent_log:AgentLog.critical", allPhases, true⟩,
+  ⟨"game.agent.agent_log:AgentLog.debug", allPhases, true⟩,
+  ⟨"game.agent.agent_log:AgentLog.error", allPhases, true⟩,
+  ⟨"game.agent.agent_log:AgentLog.info", allPhases, true⟩,
+  ⟨"game.agent.agent_log:AgentLog.warning", allPhases, true⟩,
+  ⟨"game.agent.observations.nic_observations:NICObservation.observe", allPhases, false⟩,
+  ⟨"game.agent.scripted_agents.TAP001:TAP001._select_target_ip", allPhases, false⟩,
+  ⟨"game.agent.scripted_agents.TAP001:TAP001._update_next_scan_target", [.step], false⟩,
+  ⟨"game.agent.scripted_agents.abstract_tap:AbstractTAP._select_start_node", allPhases, false⟩,
+  ⟨"game.agent.scripted_agents.abstract_tap:AbstractTAP._set_next_execution_timestep", allPhases, false⟩,
+  ⟨"game.agent.scripted_agents.probabilistic_agent:ProbabilisticAgent.rng.<lambda>", [.construct, .reset], false⟩,
+  ⟨"game.agent.scripted_agents.random_agent:PeriodicAgent._set_next_execution_timestep", allPhases, false⟩,
+  ⟨"game.agent.scripted_agents.random_agent:PeriodicAgent.start_node", allPhases, false⟩,
+  ⟨"game.game:PrimaiteGame.apply_agent_actions", [.step], true⟩,
+  ⟨"game.game:PrimaiteGame.from_config", [.construct, .reset], false⟩,
+  ⟨"game.science:simulate_trial", [.step], false⟩,
+  ⟨"primaite:getLogger", [], true⟩,
+  ⟨"session.environment:PrimaiteGymEnv._write_step_metadata_json", [.step], true⟩,
+  ⟨"session.environment:log_seed_value", [.construct], true⟩,
+  ⟨"session.environment:set_random_seed", [.construct, .reset], false⟩,
+  ⟨"session.io:PrimaiteIO.__init__", [.construct], true⟩,
+  ⟨"session.io:PrimaiteIO.generate_session_path", [.construct], true⟩,
+  ⟨"session.ray_envs:PrimaiteRayMARLEnv._write_step_metadata_json", [.step], true⟩,
+  ⟨"simulator.file_system.file_type:FileType.random", [], false⟩,
+  ⟨"simulator.network.airspace:AirSpaceFrequency.__init__", [], false⟩,
+  ⟨"simulator.network.hardware.base:NetworkInterface._capture_nmne", allPhases, false⟩,
+  ⟨"simulator.network.hardware.base:NetworkInterface.describe_state", allPhases, false⟩,
+  ⟨"simulator.network.hardware.base:NetworkInterface.setup_for_episode", [.reset], true⟩,
+  ⟨"simulator.network.hardware.base:Node.__init__", [.construct, .reset], true⟩,
+  ⟨"simulator.network.hardware.base:Node.show_nic", [], true⟩,
+  ⟨"simulator.network.hardware.nodes.network.wireless_router:WirelessRouter.from_config", [.construct, .reset], false⟩,
+  ⟨"simulator.network.networks:network_simulator_demo_example", [], true⟩,
+  ⟨"simulator.system.core.packet_capture:PacketCapture.__init__", [.construct, .reset], true⟩,
+  ⟨"simulator.system.core.packet_capture:PacketCapture._get_log_path", allPhases, true⟩,
+  ⟨"simulator.system.core.packet_capture:PacketCapture.capture_inbound", allPhases, true⟩,
+  ⟨"simulator.system.core.packet_capture:PacketCapture.capture_outbound", allPhases, true⟩,
+  ⟨"simulator.system.core.packet_capture:PacketCapture.clear", [.reset], true⟩,
+  ⟨"simulator.system.core.packet_capture:PacketCapture.setup_logger", [.construct, .reset], true⟩,
+  ⟨"simulator.system.core.sys_log:SysLog._get_log_path", allPhases, true⟩,
+  ⟨"simulator.system.core.sys_log:SysLog._write_to_terminal", allPhases, true⟩,
+  ⟨"simulator.system.core.sys_log:SysLog.critical", allPhases, true⟩,
+  ⟨"simulator.system.core.sys_log:SysLog.debug", allPhases, true⟩,
+  ⟨"simulator.system.core.sys_log:SysLog.error", allPhases, true⟩,
+  ⟨"simulator.system.core.sys_log:SysLog.info", allPhases, true⟩,
+  ⟨"simulator.system.core.sys_log:SysLog.setup_logger", allPhases, true⟩,
+  ⟨"simulator.system.core.sys_log:SysLog.warning", allPhases, true⟩,
+  ⟨"simulator:_SimOutput.agent_behaviour_path", allPhases, true⟩,
+  ⟨"simulator:_SimOutput.agent_log_level", allPhases, true⟩,
+  ⟨"simulator:_SimOutput.path", allPhases, true⟩,
+  ⟨"simulator:_SimOutput.save_agent_logs", allPhases, true⟩,
+  ⟨"simulator:_SimOutput.save_pcap_logs", allPhases, true⟩,
+  ⟨"simulator:_SimOutput.save_sys_logs", allPhases, true⟩,
+  ⟨"simulator:_SimOutput.sys_log_level", allPhases, true⟩,
+  ⟨"simulator:_SimOutput.write_agent_log_to_terminal", allPhases, true⟩,
+  ⟨"simulator:_SimOutput.write_sys_log_to_terminal", allPhases, true⟩,
+  ⟨"utils.cli.dev_cli:config_callback", [], true⟩,
+  ⟨"utils.cli.dev_cli:disable", [], true⟩,
+  ⟨"utils.cli.dev_cli:enable", [], true⟩,
+  ⟨"utils.cli.dev_cli:path", [], true⟩,
+  ⟨"utils.cli.dev_cli:show", [], true⟩,
+  ⟨"utils.cli.primaite_config_utils:is_dev_mode", allPhases, true⟩,
+  ⟨"utils.cli.primaite_config_utils:update_primaite_application_config", [], true⟩ ]
+
+/-- functions are referred to by their index in the regenerated `fns`; `C04_gen_functions_known` shows that the committed
+table lists exactly those functions in the same order, so index `i` of one is index `i` of the other -/
+def roleOf (f : Nat) : Option FnRole := committedFns[f]?
+
+def phasesOf (f : Nat) : List Phase := match roleOf f with | some r => r.phases | none => []
+def isSink (f : Nat) : Bool := match roleOf f with | some r => r.sink | none => false
+
+def writesIn (e : Entry) (ph : Phase) : Bool := e.writers.any (fun f => (phasesOf f).contains ph)
+def readsIn (e : Entry) (ph : Phase) : Bool := e.readers.any (fun f => !isSink f && (phasesOf f).contains ph)
+
+/-- class derived from the regenerated sites and the committed roles. Within one operation the write is taken to come
+before the reads (true of `from_config`, which assigns the two NMNE attributes before it builds any node; validated by
+the differential rig), so a global is unsafe exactly when some operation reads it without writing it. -/
+def derive (e : Entry) : GClass :=
+  if allPhases.all (fun ph => !writesIn e ph) then .importOnly
+  else if allPhases.all (fun ph => !readsIn e ph) then .sinkOnly
+  else if allPhases.all (fun ph => !readsIn e ph || writesIn e ph) then .rewrittenBeforeRead
+  else .shared
+
+/-- the functions that the regenerated inventory shows touching a runtime-written global or a global RNG are exactly the
+functions of the committed role table (a new or renamed function breaks this obligation) -/
+theorem C04_gen_functions_known : committedFns.map (·.fn) = fns := by decide +kernel
+
+/-- the runtime-written globals are exactly the committed six, with these derived classes -/
+theorem C04_gen_classification :
+    (entries.filter (fun e => !e.writers.isEmpty)).map (fun e => (e.name, derive e)) =
+      [ ("game.agent.observations.nic_observations:NICObservation.capture_nmne", .shared),
+        ("primaite:PRIMAITE_CONFIG", .importOnly),
+        ("simulator.network.airspace:AirSpaceFrequency._registry", .importOnly),
+        ("simulator.network.hardware.base:NetworkInterface.nmne_config", .shared),
+        ("simulator.system.core.packet_capture:PacketCapture._logger_instances", .sinkOnly),
+        ("simulator:SIM_OUTPUT", .sinkOnly) ] := by decide +kernel
+
+/-- no `global` statement anywhere, and no module logger object is re-bound or mutated by a function -/
+theorem C04_gen_no_global_statements : globalStatements = [] ∧ moduleLoggersWritten = [] := by decide
+
+def knownLeaks : List String :=
+  [ "game.agent.observations.nic_observations:NICObservation.capture_nmne",
+    "simulator.network.hardware.base:NetworkInterface.nmne_config" ]
+
+/-- Full statement of DESIGN's `gen_globals_safe` -/
+def C04_FullGenGlobalsSafe : Prop := ∀ e ∈ entries, derive e ≠ .shared
+
+/-- every inventory entry other than the two recorded NMNE class attributes (F-10) is import-only, sink-only or
+re-written before read -/
+theorem C04_gen_globals_safe_partial : ∀ e ∈ entries, ¬ knownLeaks.contains e.name → derive e ≠ .shared := by decide +kernel
+
+theorem C04_gen_globals_safe_counterexample : ¬ C04_FullGenGlobalsSafe := by
+  unfold C04_FullGenGlobalsSafe
+  decide +kernel
+
+/-! the global random generators -/
+
+def isSeeder (call : String) : Bool := call == "random.seed" || call == "numpy.random.seed"
+
+def rngSeededIn (gen : String) (ph : Phase) : Bool :=
+  rngUses.any fun u => u.1 == gen && isSeeder u.2.2 && (phasesOf u.2.1).contains ph
+def rngDrawnIn (gen : String) (ph : Phase) : Bool :=
+  rngUses.any fun u => u.1 == gen && !isSeeder u.2.2 && (phasesOf u.2.1).contains ph
+
+/-- Full statement: every operation that draws from a global generator has seeded it first -/
+def C04_FullGenRngSafe : Prop := ∀ gen ∈ ["random", "numpy.random"], ∀ ph ∈ allPhases, rngDrawnIn gen ph = true → rngSeededIn gen ph = true
+
+/-- construct and reset seed before they draw (given a configured / passed seed); numpy's global generator is drawn only there -/
+theorem C04_gen_rng_safe_partial :
+    (∀ gen ∈ ["random", "numpy.random"], ∀ ph ∈ [Phase.construct, Phase.reset], rngDrawnIn gen ph = true → rngSeededIn gen ph = true)
+    ∧ rngDrawnIn "numpy.random" .step = false := by decide +kernel
+
+/-- F-11: `step` draws from Python's global `random` (scripted agents, red applications) and never seeds it -/
+theorem C04_gen_rng_safe_counterexample : ¬ C04_FullGenRngSafe := by
+  intro h
+  have := h "random" (by decide) .step (by decide) (by decide)
+  revert this
+  decide
+
+/-! the skeleton's access pattern is the one derived from the inventory -/
+
+def entryNamed (n : String) : Option Entry := entries.find? (fun e => e.name == n)
+
+def numbered : List (Nat × String) :=
+  [ (gNmne, "simulator.network.hardware.base:NetworkInterface.nmne_config"),
+    (gCapture, "game.agent.observations.nic_observations:NICObservation.capture_nmne"),
+    (gSimOutput, "simulator:SIM_OUTPUT"),
+    (gPcapLoggers, "simulator.system.core.packet_capture:PacketCapture._logger_instances") ]
+
+/-- For each numbered global and each operation: the skeleton program writes it iff the inventory has a writer in that
+operation, and reads it unprotected iff the inventory has a non-sink reader but no writer in that operation. Likewise
+for the RNG (global 0) against `rngUses`. -/
+theorem C04_gen_skeleton_matches :
+    (numbered.all fun (g, n) => match entryNamed n with
+      | none => false
+      | some e => allPhases.all fun ph =>
+          ((writesOf (progOf ph)).contains g == writesIn e ph)
+          && ((unprotectedReads [] (progOf ph)).contains g == (readsIn e ph && !writesIn e ph))) = true
+    ∧ (allPhases.all fun ph =>
+          ((unprotectedReads [] (progOf ph)).contains gRng == (rngDrawnIn "random" ph && !rngSeededIn "random" ph))) = true := by
+  decide +kernel
 
 end Primaite.Isolation
